@@ -155,3 +155,223 @@ Proof.
   - constructor; [|exact K3]. unfold normal_ok. cbn [snd]. split; [|exact Hg].
     pose proof (N.mod_lt pos u32_mod ltac:(unfold u32_mod; lia)). unfold u32_max, u32_mod in *. lia.
 Qed.
+
+(* ---------- facts that follow from savable ---------- *)
+Lemma dict_set_forall (P : bytes * obj -> Prop) : forall d k v,
+  Forall P d -> P (k, v) -> (forall k' v', P (k', v') -> P (k', v)) -> Forall P (dict_set d k v).
+Proof.
+  induction d as [|[k' v'] d IH]; intros k v Hd Hp Hrepl; cbn [dict_set]; [constructor; [exact Hp|constructor]|].
+  inversion Hd; subst. destruct (bytes_eqb k' k).
+  - constructor; [apply (Hrepl k' v'); assumption | assumption].
+  - constructor; [assumption | apply IH; assumption].
+Qed.
+
+Lemma nest_dict_set : forall d k z, (nest_dict (dict_set d k (OInt z)) <= nest_dict d)%nat.
+Proof.
+  induction d as [|[k' v'] d IH]; intros k z; cbn [dict_set nest_dict fold_right snd nest]; [lia|].
+  destruct (bytes_eqb k' k); cbn [nest_dict fold_right snd nest].
+  - fold (nest_dict d). lia.
+  - fold (nest_dict d). fold (nest_dict (dict_set d k (OInt z))). specialize (IH k z). lia.
+Qed.
+
+Lemma trailer_table_wf d :
+  savable d -> obj_wf (ODict (trailer_table d)).
+Proof.
+  intro S. pose proof (sv_trailer d S) as Hw. inversion Hw as [| | | | | | |tr Hnd Hf|]; subst.
+  unfold trailer_table. constructor.
+  - apply (dict_set_wf (d_trailer d) Save.K_Size _ Hnd).
+  - apply dict_set_forall; [exact Hf | | intros; constructor].
+    + cbn [snd]. constructor. pose proof (sv_max_id d S). unfold in_i64, i64_min, i64_max, u32_mod in *.
+      apply andb_true_iff; split; apply Z.leb_le; lia.
+    + cbn [snd]. pose proof (sv_max_id d S). unfold in_i64, i64_min, i64_max, u32_mod in *.
+      apply andb_true_iff; split; apply Z.leb_le; lia.
+Qed.
+
+Lemma trailer_table_nest d :
+  known_deep d = false -> (nest (ODict (trailer_table d)) <= MAX_DEPTH)%nat.
+Proof.
+  intro K. unfold known_deep in K. apply orb_false_iff in K as [_ K]. apply Nat.ltb_ge in K.
+  unfold trailer_table. cbn [nest] in *. fold (nest_dict (d_trailer d)) in K.
+  fold (nest_dict (dict_set (d_trailer d) Save.K_Size (OInt (Z.of_N (d_max_id d + 1))))).
+  pose proof (nest_dict_set (d_trailer d) Save.K_Size (Z.of_N (d_max_id d + 1))). pose proof (Nat.le_max_r 2 (S (nest_dict (d_trailer d)))). lia.
+Qed.
+
+Lemma savable_objs_ok d :
+  savable d -> known_deep d = false -> Forall obj_ok (d_objects d).
+Proof.
+  intros S K. pose proof (sv_objects d S) as Ho. pose proof (sv_max_id d S) as Hm.
+  unfold known_deep in K. apply orb_false_iff in K as [K _].
+  rewrite Forall_forall in *. intros io Hin. specialize (Ho io Hin). destruct Ho as [H1 [H2 [H3 H4]]].
+  unfold obj_ok. split; [|split; [|split; [|split]]]; try assumption.
+  - unfold u32_max, u32_mod in *. apply N.le_trans with (d_max_id d); [exact H1|]. clear - Hm. lia.
+  - assert (Hk : (MAX_DEPTH <? nest (snd io))%nat = false).
+    { destruct (MAX_DEPTH <? nest (snd io))%nat eqn:E; [|reflexivity].
+      assert (existsb (fun io => (MAX_DEPTH <? nest (snd io))%nat) (d_objects d) = true)
+        by (apply existsb_exists; exists io; split; assumption). congruence. }
+    apply Nat.ltb_ge in Hk. exact Hk.
+Qed.
+
+Lemma save_table_ok d : savable d -> so_status (save XTable d) = SaveOk.
+Proof.
+  intro S. unfold save.
+  replace (u32_top <=? d_max_id d) with false
+    by (symmetry; apply N.leb_gt; pose proof (sv_max_id d S); unfold u32_top, u32_mod in *; lia).
+  rewrite (sv_mark d S). cbn [negb]. destruct (save_body d) as [[b xs] x]. reflexivity.
+Qed.
+
+Lemma max_id_fold : forall objs pos a,
+  Forall obj_ok objs ->
+  fold_left (fun a ke => N.max a (fst ke)) (conv_map (entries_of pos objs)) a =
+  fold_left (fun a (io : oid * obj) => N.max a (fst (fst io))) objs a.
+Proof.
+  induction objs as [|[[id g] o] rest IH]; intros pos a Hok; [reflexivity|].
+  inversion Hok as [|? ? [_ [_ [_ [_ Hsk]]]] Hok']; subst. cbn [snd] in Hsk.
+  cbn [entries_of]. rewrite Hsk. cbn [conv_map map fold_left]. unfold conv_entry at 1. cbn [fst snd].
+  apply IH. exact Hok'.
+Qed.
+
+Lemma fold_max_le : forall (objs : objmap) a B,
+  a <= B -> Forall (fun io => fst (fst io) <= B) objs ->
+  fold_left (fun a (io : oid * obj) => N.max a (fst (fst io))) objs a <= B.
+Proof.
+  induction objs as [|io objs IH]; intros a B Ha Hf; [exact Ha|]. inversion Hf; subst. cbn [fold_left]. apply IH; [apply N.max_lub; assumption | assumption].
+Qed.
+
+Lemma dict_has_false_get d k : dict_has d k = false -> dict_get d k = None.
+Proof. unfold dict_has. destruct (dict_get d k); [discriminate | reflexivity]. Qed.
+
+Lemma table_sections_nonempty (x : Save.xmap) size : table_sections x size <> [].
+Proof.
+  intro E. pose proof (flatten_sections_loop (N.to_nat (size - 1)) 1 x table_conv 0 [Save.XUnusable] (or_intror eq_refl)) as F.
+  unfold table_sections in E. rewrite E in F. discriminate F.
+Qed.
+
+Lemma sections_loop_nonempty : forall n id (x : Save.xmap) conv start cur,
+  Forall (fun s : xsection => snd s <> []) (sections_loop n id x conv start cur).
+Proof.
+  induction n as [|n IH]; intros id x conv start cur; cbn [sections_loop].
+  - destruct cur; [constructor|]. constructor; [cbn [snd]; discriminate | constructor].
+  - destruct (Save.xget x id); [apply IH|]. destruct cur; [apply IH|].
+    constructor; [cbn [snd]; discriminate | apply IH].
+Qed.
+
+Lemma write_xref_long (x : Save.xmap) size : (6 <= length (write_xref x size))%nat.
+Proof.
+  unfold write_xref. rewrite app_length. cbn [length].
+  pose proof (table_sections_nonempty x size) as Hne.
+  pose proof (sections_loop_nonempty (N.to_nat (size - 1)) 1 x table_conv 0 [Save.XUnusable]) as Hn.
+  fold (table_sections x size) in Hn.
+  destruct (table_sections x size) as [|[s es] secs]; [contradiction|].
+  inversion Hn as [|? ? Hes _]; subst. cbn [snd] in Hes.
+  cbn [flat_map]. rewrite app_length. rewrite write_xref_section_eq by exact Hes. rewrite app_length.
+  pose proof (N_dec_nonempty s). destruct (N_dec s); [contradiction|]. cbn [length].
+  pose proof (eq_refl : length (bs "xref") = 4%nat). lia.
+Qed.
+
+(* ---------- the composition ---------- *)
+Theorem load_save_table d :
+  savable d -> known_deep d = false -> small_file XTable d ->
+  load (save_table d) = LOk (reloaded_table d) XTTable.
+Proof.
+  intros S K Hsmall.
+  pose proof (save_table_ok d S) as Hok.
+  destruct (save_ok_shape XTable d Hok) as [mid [Hbytes Hmid]].
+  set (v := d_version d). set (m := d_binary_mark d). set (objs := d_objects d).
+  set (t := trailer_table d). set (size := d_max_id d + 1).
+  set (HM := header_bytes d ++ mark_bytes d).
+  assert (Hobjs : Forall obj_ok objs) by (apply savable_objs_ok; assumption).
+  assert (Hinc : increasing 0 (obj_numbers objs)) by (apply (sv_numbers d S)).
+  assert (Ebody : body_of d = HM ++ objs_bytes objs).
+  { unfold body_of. rewrite save_body_eq. cbv zeta. cbn [fst]. fold HM. fold objs. rewrite write_objects_bytes. reflexivity. }
+  assert (Ex : xmap_of d = entries_of (Save.blen HM) objs).
+  { unfold xmap_of. rewrite save_body_eq. cbv zeta. cbn [snd]. fold HM. fold objs.
+    rewrite (write_objects_map objs (Save.blen HM) [] 0 Hinc (Forall_nil _)). reflexivity. }
+  set (n := Save.blen (body_of d)).
+  set (sx := startxref_bytes n).
+  unfold save_table. rewrite Hbytes. fold n. fold sx. subst mid. rewrite Ex. fold t. fold size.
+  set (x := entries_of (Save.blen HM) objs).
+  set (file := body_of d ++ (write_xref x size ++ trailer_bytes t) ++ sx).
+  assert (Hsm : Loader.blen file < u32_mod).
+  { unfold small_file, save_table in Hsmall. rewrite Hbytes in Hsmall. rewrite Ex in Hsmall. exact Hsmall. }
+  (* three views of the file *)
+  assert (E1 : file = bs "%PDF-" ++ v ++ x0a :: x25 :: m ++ x0a :: (objs_bytes objs ++ (write_xref x size ++ trailer_bytes t) ++ sx)).
+  { unfold file. rewrite Ebody. unfold HM, header_bytes, mark_bytes. fold v. fold m.
+    repeat (rewrite <- app_assoc; cbn [app]). reflexivity. }
+  assert (E2 : file = (body_of d ++ write_xref x size ++ trailer_bytes t) ++ sx).
+  { unfold file. rewrite <- !app_assoc. reflexivity. }
+  assert (E3 : file = HM ++ objs_bytes objs ++ ((write_xref x size ++ trailer_bytes t) ++ sx)).
+  { unfold file. rewrite Ebody. rewrite <- !app_assoc. reflexivity. }
+  (* the map *)
+  destruct (entries_of_props objs (Save.blen HM) 0 size Hobjs Hinc) as [Hxi [Hxb Hxn]].
+  { pose proof (sv_objects d S) as Ho. eapply Forall_impl; [|exact Ho]. intros io [H1 _]. unfold size. lia. }
+  fold x in Hxi, Hxb, Hxn. replace (0 + 1) with 1 in Hxi by lia.
+  pose proof (sv_max_id d S) as Hmax.
+  (* load *)
+  unfold load.
+  assert (Hoff : pdf_offset file = 0) by (rewrite E1; apply pdf_offset_header).
+  rewrite Hoff, from_0.
+  assert (Hhead : header file = Some v).
+  { rewrite E1. apply header_rt; [apply (sv_version_eol d S) | apply (sv_version_utf8 d S)]. }
+  rewrite Hhead.
+  assert (Hmark : read_binary_mark file = m).
+  { rewrite E1. apply binary_mark_rt; [apply (sv_version_eol d S) | apply (sv_mark d S)]. }
+  rewrite Hmark.
+  assert (Hn_len : n = Loader.blen (body_of d)) by reflexivity.
+  assert (Hstart : get_xref_start file = Some n).
+  { rewrite E2. apply get_xref_start_rt.
+    - rewrite Hn_len. unfold Loader.blen. rewrite app_length. lia.
+    - pose proof (write_xref_long x size) as Hxl.
+      unfold Loader.blen. rewrite Ebody. unfold HM, header_bytes, mark_bytes, trailer_bytes.
+      repeat (rewrite app_length; cbn [length]).
+      pose proof (eq_refl : length (bs "%PDF-") = 5%nat). pose proof (eq_refl : length (bs "trailer") = 7%nat).
+      assert (4 <= length (write_dictionary t))%nat.
+      { unfold write_dictionary. rewrite write_dict_eq. cbn [length]. rewrite app_length. cbn [length]. lia. }
+      lia.
+    - assert (n < u32_mod).
+      { rewrite Hn_len. unfold file, Loader.blen in *. rewrite app_length in Hsm. lia. }
+      unfold u32_mod in *. change (10 ^ 14) with 100000000000000. lia. }
+  rewrite Hstart.
+  (* xref and trailer *)
+  assert (Hwf : obj_wf (ODict t)) by (apply trailer_table_wf; exact S).
+  assert (Hnest : (nest (ODict t) <= MAX_DEPTH)%nat) by (apply trailer_table_nest; exact K).
+  assert (Hxt : xref_and_trailer file n =
+                SOk ({| x_type := XTTable; x_entries := conv_map x; x_size := i64_as_u32 (Z.of_N size) |}, norm_dict t)).
+  { unfold xref_and_trailer. rewrite Hn_len. unfold file. rewrite from_app.
+    unfold xref_and_trailer_table.
+    assert (Etr : trailer_bytes t ++ sx = bs "trailer" ++ x0a :: write_dictionary t ++ sx).
+    { unfold trailer_bytes. repeat (rewrite <- app_assoc; cbn [app]). reflexivity. }
+    rewrite <- app_assoc. rewrite Etr.
+    rewrite xref_table_roundtrip; [| unfold size; lia | unfold size, two32, u32_mod in *; lia | exact Hxi | exact Hxb | exact Hxn].
+    rewrite <- Etr. rewrite trailer_rt by assumption.
+    rewrite dict_get_norm. unfold t, trailer_table. rewrite dict_get_set_same. cbn [option_map norm_obj].
+    reflexivity. }
+  rewrite Hxt.
+  (* Prev, size, Encrypt *)
+  assert (Hprev : dict_get (norm_dict t) Xref.K_Prev = None).
+  { change Xref.K_Prev with Save.K_Prev. rewrite dict_get_norm. unfold t, trailer_table. rewrite dict_get_set_other by discriminate.
+    rewrite (dict_has_false_get _ _ (sv_no_prev d S)). reflexivity. }
+  rewrite Hprev.
+  assert (Hsr : dict_swap_remove (norm_dict t) Xref.K_Prev = norm_dict t).
+  { unfold dict_swap_remove, dict_has. rewrite Hprev. reflexivity. }
+  rewrite Hsr. cbn [prev_loop].
+  assert (Hmaxid : xref_max_id {| x_type := XTTable; x_entries := conv_map x; x_size := i64_as_u32 (Z.of_N size) |} = last_number objs).
+  { unfold xref_max_id, last_number. cbn [x_entries]. unfold x. apply max_id_fold. exact Hobjs. }
+  rewrite Hmaxid.
+  assert (Hlast : last_number objs <= d_max_id d).
+  { unfold last_number. apply fold_max_le; [lia|]. pose proof (sv_objects d S) as Ho.
+    eapply Forall_impl; [|exact Ho]. intros io [H1 _]. exact H1. }
+  replace (u32_max <=? last_number objs) with false
+    by (symmetry; apply N.leb_gt; unfold u32_max, u32_mod in *; lia).
+  assert (Henc : dict_has (norm_dict t) Loader.K_Encrypt = false).
+  { unfold dict_has. rewrite dict_get_norm. unfold t, trailer_table. rewrite dict_get_set_other by discriminate.
+    change Loader.K_Encrypt with Save.K_Encrypt. rewrite (dict_has_false_get _ _ (sv_no_encrypt d S)). reflexivity. }
+  rewrite Henc.
+  (* the objects *)
+  cbn [x_entries x_type].
+  assert (Hread : read_entries file (conv_map x) [] = SOk (norm_objects objs)).
+  { rewrite E3. unfold x. rewrite (read_entries_objs objs HM _ [] 0); try assumption.
+    - reflexivity.
+    - constructor.
+    - rewrite E3 in Hsm. exact Hsm. }
+  rewrite Hread. reflexivity.
+Qed.
